@@ -142,6 +142,14 @@ def classes(impl, G):
         out.append(('unsupported angle', 'angle(%s, %s)' % (ka, kb), lambda: impl.angle(objs[ka], objs[kb])))
         out.append(('unsupported parallel', 'parallel(%s, %s)' % (ka, kb), lambda: impl.parallel(objs[ka], objs[kb])))
         out.append(('unsupported orthogonal', 'orthogonal(%s, %s)' % (ka, kb), lambda: impl.orthogonal(objs[ka], objs[kb])))
+    # the same unsupported calls with ONE object as both operands (function and method form): no identity shortcut may answer them
+    ks = R.choice(['S', 'H', 'G', 'B'])
+    xs = objs[ks]
+    out.append(('unsupported distance', 'distance(x, x) with x a %s' % ks, lambda: impl.distance(xs, xs)))
+    out.append(('unsupported distance', 'x.distance(x) with x a %s' % ks, lambda: xs.distance(xs)))
+    for nm in ('angle', 'parallel', 'orthogonal'):
+        out.append(('unsupported ' + nm, '%s(x, x) with x a %s' % (nm, ks), lambda nm=nm: getattr(impl, nm)(xs, xs)))
+        out.append(('unsupported ' + nm, 'x.%s(x) with x a %s' % (nm, ks), lambda nm=nm: getattr(xs, nm)(xs)))
     out.append(('unsupported angle', 'angle(%s, Vector)' % ka, lambda: impl.angle(objs[ka], vec)))
     out.append(('unsupported distance', 'distance(%s, Vector)' % ka, lambda: impl.distance(objs[ka], vec)))
     kv = R.choice(['P', 'L', 'PL', 'S', 'H', 'G'])
@@ -156,11 +164,7 @@ def work(args):
     G = Gen(random.Random(seed))
     res = []
     for i in range(n):
-        try:
-            cl = classes(impl, G)
-        except Exception as e:
-            res.append(('harness', 'building the valid parts of a case raised %s: %s' % (type(e).__name__, str(e)[:80]), ('harness-exc',)))
-            continue
+        cl = classes(impl, G)      # building the VALID operands of a case; an exception here propagates (core.run: raised inside the implementation -> violation)
         for name, desc, th in cl:
             r = core.guarded(impl.call, th)
             if r[0] == 'ok':
